@@ -131,3 +131,12 @@ Definition ex_obs (c : text * list ecmd) : list text * bool * bool :=
    existsb (fun s => match e_lines s with [] => true | _ => false end) tr,
    (* the last line was empty at some point: without a terminator such a line has no text to stand for it *)
    existsb (fun s => match rev (e_lines s) with [] :: _ => true | _ => false end) tr).
+
+From Vicut Require Import Model.Vic.
+(** the reference run of a vic program: (0, output) finished, (1, output so far) error, (2, _) out of fuel *)
+Definition vic_obs (c : list (text * val) * list stmt) : N * text :=
+  match run_prog (N.to_nat 6000) (fst c) (snd c) with
+  | RNormal st | RBreak st | RContinue st | RReturn _ st => (0, output st)
+  | RErr => (1, [])
+  | RFuel => (2, [])
+  end.
